@@ -1631,10 +1631,357 @@ def gen_c10(read, num):
     return lines, broken
 
 
+def _enum_variants(src, name):
+    """Variant names of `pub enum <name>` in declaration order (None if the enum is not found)."""
+    m = re.search(r"pub\s+enum\s+" + name + r"\b[^{]*\{", src)
+    if not m:
+        return None
+    body = _fn_body(src, r"pub\s+enum\s+" + name + r"\b[^{]*\{")
+    if body is None:
+        return None
+    body = re.sub(r"//[^\n]*", "", body)
+    body = re.sub(r"#\[[^\]]*\]", "", body)
+    out, depth, cur = [], 0, ""
+    for c in body:
+        if c in "{(<":
+            depth += 1
+        elif c in "})>":
+            depth -= 1
+        if c == "," and depth == 0:
+            out.append(cur)
+            cur = ""
+        else:
+            cur += c
+    out.append(cur)
+    names = []
+    for v in out:
+        mm = re.match(r"\s*([A-Z][A-Za-z0-9]*)", v)
+        if mm:
+            names.append(mm.group(1))
+    return names
+
+
+def _derives(src, kind, name):
+    m = re.search(r"#\[derive\(([^)]*)\)\]\s*(?:#\[[^\]]*\]\s*)*pub\s+" + kind + r"\s+" + name + r"\b", src)
+    if not m:
+        return None
+    return [d.strip() for d in m.group(1).split(",") if d.strip()]
+
+
+def _split_arms(body, strip=True):
+    """Top-level `pattern => expression` arms of a match body (comments removed)."""
+    body = re.sub(r"//[^\n]*", "", body)
+    arms, depth, i, n = [], 0, 0, len(body)
+    start = 0
+    pat = None
+    while i < n:
+        c = body[i]
+        if c in "({[":
+            depth += 1
+        elif c in ")}]":
+            depth -= 1
+        elif depth == 0 and body.startswith("=>", i) and pat is None:
+            pat = body[start:i]
+            i += 2
+            # the expression: a brace block or up to the next top-level comma
+            j = i
+            while j < n and body[j].isspace():
+                j += 1
+            d2, k = 0, j
+            while k < n:
+                ch = body[k]
+                if ch in "({[":
+                    d2 += 1
+                elif ch in ")}]":
+                    d2 -= 1
+                    if d2 == 0 and ch == "}" and body[j] == "{":
+                        k += 1
+                        break
+                elif ch == "," and d2 == 0:
+                    break
+                k += 1
+            arms.append((re.sub(r"\s+", "", pat), re.sub(r"\s+", "", body[j:k]) if strip else body[j:k]))
+            pat = None
+            i = k
+            while i < n and (body[i] == "," or body[i].isspace()):
+                i += 1
+            start = i
+            continue
+        i += 1
+    return arms
+
+
+def _canon_rhs(rhs):
+    """Type-independent text of an `Ord` arm: the helper it calls / the fields it compares."""
+    r = rhs
+    while r.startswith("{") and r.endswith("}"):
+        d, ok = 0, True
+        for k, ch in enumerate(r):
+            if ch == "{":
+                d += 1
+            elif ch == "}":
+                d -= 1
+                if d == 0 and k != len(r) - 1:
+                    ok = False
+                    break
+        if not ok:
+            break
+        r = r[1:-1]
+    r = r.replace("compare_owned_term_lists", "compare_term_lists")
+    r = r.replace(".as_slice()", "").replace(".as_ref()", "").replace(".as_bytes()", "")
+    r = r.replace("a.name.cmp(&b.name)", "a.cmp(b)")
+    r = r.replace("borrowed_type_order", "term_type_order")
+    return r
+
+
+def _ord_tables(src, ty, order_fn, broken, label):
+    """(ranks, fast-path arms, arms, catch-all) of `impl Ord for <ty>`."""
+    ranks, fast, arms, catch = [], [], [], ""
+    body = _fn_body(src, r"const\s+fn\s+" + order_fn + r"\s*\(")
+    if body is None:
+        broken.append(f"{label}: const fn {order_fn} not found")
+    else:
+        mb = _fn_body(body, r"match\s+t\s*\{")
+        for pat, rhs in _split_arms(mb or ""):
+            if not re.fullmatch(r"[0-9]+", rhs):
+                broken.append(f"{label}: {order_fn} arm `{pat} => {rhs}` is not a number")
+                continue
+            for v in re.findall(ty + r"::([A-Za-z0-9]+)", pat):
+                ranks.append((v, int(rhs)))
+    ob = _fn_body(src, r"impl(?:<'a>)?\s+Ord\s+for\s+" + ty + r"\b[^{]*\{")
+    if ob is None:
+        broken.append(f"{label}: impl Ord for {ty} not found")
+        return ranks, fast, arms, catch
+    cb = _fn_body(ob, r"fn\s+cmp\s*\(")
+    if cb is None:
+        broken.append(f"{label}: fn cmp not found")
+        return ranks, fast, arms, catch
+    flat = re.sub(r"\s+", "", re.sub(r"//[^\n]*", "", cb))
+    if "let(this,other)=(self.without_empty_cells(),other.without_empty_cells());" not in flat:
+        broken.append(f"{label}: cmp no longer starts by skipping improper lists without elements on both sides")
+    if re.search(r"\bself\b", flat.replace("self.without_empty_cells()", "")):
+        broken.append(f"{label}: cmp uses `self` after the empty-cell skip")
+    fp = _fn_body(cb, r"if\s+discriminant\(this\)\s*==\s*discriminant\(other\)\s*\{")
+    if fp is not None:
+        fm = _fn_body(fp, r"match\s*\(this,\s*other\)\s*\{")
+        for pat, rhs in _split_arms(fm or ""):
+            vs = re.findall(ty + r"::([A-Za-z0-9]+)", pat)
+            if len(vs) == 2 and rhs.startswith("return"):
+                fast.append((vs[0], vs[1], _canon_rhs(rhs[len("return"):])))
+            elif pat != "_":
+                broken.append(f"{label}: fast-path arm `{pat}` not understood")
+    main = re.search(r"match\s+" + order_fn + r"\(this\)\s*\.cmp\(&" + order_fn + r"\(other\)\)\s*\{", cb)
+    if not main:
+        broken.append(f"{label}: `match {order_fn}(this).cmp(&{order_fn}(other))` not found")
+        return ranks, fast, arms, catch
+    mb = _fn_body(cb[main.start():], r"match\s+" + order_fn + r"\(this\)[^{]*\{")
+    outer = _split_arms(mb or "")
+    if [p for p, _ in outer] != ["Ordering::Equal", "other"] or outer[1][1] != "other":
+        broken.append(f"{label}: outer match is not `Ordering::Equal => …, other => other`")
+        return ranks, fast, arms, catch
+    eqb = _fn_body(mb, r"Ordering::Equal\s*=>\s*match\s*\(this,\s*other\)\s*\{")
+    for pat, rhs in _split_arms(eqb or ""):
+        vs = re.findall(ty + r"::([A-Za-z0-9]+)", pat)
+        if pat == "_":
+            catch = _canon_rhs(rhs)
+        elif len(vs) == 2:
+            arms.append((vs[0], vs[1], _canon_rhs(rhs)))
+        else:
+            broken.append(f"{label}: arm `{pat}` not understood")
+    if not arms or not catch:
+        broken.append(f"{label}: no arms / no catch-all arm found in the same-rank match")
+    return ranks, fast, arms, catch
+
+
+def _norm_fn_text(src, header_re, ty, order_fn):
+    b = _fn_body(src, header_re)
+    if b is None:
+        return None
+    b = re.sub(r"//[^\n]*", "", b)
+    b = re.sub(r"\s+", "", b)
+    b = b.replace(ty + "::", "T::").replace(order_fn, "type_order")
+    b = b.replace("<'a>", "").replace("<'t,'a>", "<'t>").replace("BorrowedTerm", "T").replace("OwnedTerm", "T")
+    return b
+
+
+def gen_c11(read, num):
+    """C11/C12 part: everything table-like of the term order, equality and hashing — variant lists (the `discriminant`
+    that `Hash` writes), derives, both type-rank tables, both `Ord` arm tables (variant pair -> helper / compared fields),
+    the hashed fields per variant, the compared / hashed / ordered fields of the identifier structs, and whether the
+    two copies of the cons-cell walk are the same text."""
+    broken = []
+    lines = []
+    term = read("crates/erltf/src/term.rs")
+    bor = read("crates/erltf/src/borrowed.rs")
+    types = read("crates/erltf/src/types.rs")
+    ov, bv, od, bd = [], [], [], []
+    oranks, ofast, oarms, ocatch = [], [], [], ""
+    branks, bfast, barms, bcatch = [], [], [], ""
+    hashf, ideq, idhash, idcmp, sfields, sderives = [], [], [], [], [], []
+    list_order = [0, 0]
+    same_text = []
+    if term is None or bor is None or types is None:
+        broken.append("term.rs, borrowed.rs or types.rs missing")
+    else:
+        ov = _enum_variants(term, "OwnedTerm") or []
+        bv = _enum_variants(bor, "BorrowedTerm") or []
+        if not ov or not bv:
+            broken.append("enum OwnedTerm / BorrowedTerm not found")
+        od = _derives(term, "enum", "OwnedTerm") or []
+        bd = _derives(bor, "enum", "BorrowedTerm") or []
+        if not od or not bd:
+            broken.append("#[derive(…)] of OwnedTerm / BorrowedTerm not found")
+        for ty, src in (("OwnedTerm", term), ("BorrowedTerm", bor)):
+            if re.search(r"impl(?:<'a>)?\s+PartialEq\s+for\s+" + ty + r"\b", src):
+                broken.append(f"{ty} has a hand-written PartialEq (the model has the derived one)")
+        oranks, ofast, oarms, ocatch = _ord_tables(term, "OwnedTerm", "term_type_order", broken, "term.rs")
+        branks, bfast, barms, bcatch = _ord_tables(bor, "BorrowedTerm", "borrowed_type_order", broken, "borrowed.rs")
+        for k, src in enumerate((term, bor)):
+            m = re.search(r"const\s+LIST_TYPE_ORDER\s*:\s*u8\s*=\s*([0-9]+)\s*;", src)
+            if m:
+                list_order[k] = num(m.group(1))
+            else:
+                broken.append("const LIST_TYPE_ORDER not found in " + ("term.rs", "borrowed.rs")[k])
+        # the duplicated helpers: same text up to the type names?
+        for fn, hdr in (("ListCells::next", r"fn\s+next\s*\(\s*&mut\s+self\s*\)\s*->\s*Option<&'t"),
+                        ("ListCells::new", r"fn\s+new\s*\(\s*term\s*:\s*&'t"),
+                        ("compare_list_terms", r"fn\s+compare_list_terms\s*(?:<'a>)?\s*\("),
+                        ("without_empty_cells", r"fn\s+without_empty_cells\s*\("),
+                        ("bitstring_parts", r"fn\s+bitstring_parts\s*\(")):
+            a = _norm_fn_text(term, hdr, "OwnedTerm", "term_type_order")
+            b = _norm_fn_text(bor, hdr, "BorrowedTerm", "borrowed_type_order")
+            if a is None or b is None:
+                broken.append(f"fn {fn} not found in term.rs / borrowed.rs")
+                continue
+            a = a.replace(".as_slice()", "").replace(".as_ref()", "")
+            b = b.replace(".as_slice()", "").replace(".as_ref()", "")
+            same_text.append((fn, a == b))
+        a = _fn_body(term, r"fn\s+compare_term_lists\s*\(")
+        b = _fn_body(bor, r"fn\s+compare_owned_term_lists\s*\(")
+        if a is None or b is None:
+            broken.append("compare_term_lists / compare_owned_term_lists not found")
+        else:
+            same_text.append(("compare_term_lists", re.sub(r"\s+", "", a) == re.sub(r"\s+", "", b)))
+        # the numeric helpers exist once: borrowed.rs must import them, not define its own
+        for fn in ("compare_int_bigint", "compare_bigint_int", "compare_bigint", "compare_int_float", "compare_float_int",
+                   "compare_bigint_float", "compare_float_bigint"):
+            if re.search(r"fn\s+" + fn + r"\s*\(", bor):
+                broken.append(f"borrowed.rs defines its own {fn} (the model has one copy)")
+            if not re.search(r"\b" + fn + r"\b", bor):
+                broken.append(f"borrowed.rs no longer uses {fn}")
+        # Hash: the fields each variant writes, in order
+        hb = _fn_body(term, r"impl\s+Hash\s+for\s+OwnedTerm\s*\{")
+        hf = _fn_body(hb or "", r"fn\s+hash\s*<")
+        if hf is None:
+            broken.append("impl Hash for OwnedTerm not found")
+        else:
+            flat = re.sub(r"\s+", "", re.sub(r"//[^\n]*", "", hf))
+            if not flat.startswith("discriminant(self).hash(state);matchself{"):
+                broken.append("Hash for OwnedTerm no longer starts with discriminant(self).hash(state)")
+            mb = _fn_body(hf, r"match\s+self\s*\{")
+            for pat, rhs in _split_arms(mb or "", strip=False):
+                v = re.findall(r"OwnedTerm::([A-Za-z0-9]+)", pat)
+                if len(v) != 1:
+                    broken.append(f"Hash arm `{pat}` not understood")
+                    continue
+                text = re.sub(r"\bfor\s+[^{]*?\s+in\s+[^{]*\{", "each:", rhs)
+                fs = []
+                for st in text.split(";"):
+                    st = re.sub(r"\s+", "", st).strip("{}")
+                    st = re.sub(r"^\}+", "", st)
+                    if st in ("", "()"):
+                        continue
+                    mm = re.fullmatch(r"(.*)\.hash\(state\)", st)
+                    if not mm:
+                        broken.append(f"Hash arm of {v[0]}: statement `{st}` is not `<expr>.hash(state)`")
+                        continue
+                    fs.append(mm.group(1).lstrip("{"))
+                hashf.append((v[0], fs))
+        # identifier structs: fields compared by ==, hashed, ordered
+        for st in ("ExternalPid", "ExternalPort", "ExternalReference"):
+            eb = _fn_body(types, r"impl\s+PartialEq\s+for\s+" + st + r"\s*\{")
+            hb2 = _fn_body(types, r"impl\s+Hash\s+for\s+" + st + r"\s*\{")
+            cb2 = _fn_body(types, r"impl\s+Ord\s+for\s+" + st + r"\s*\{")
+            if eb is None or hb2 is None or cb2 is None:
+                broken.append(f"PartialEq / Hash / Ord impl of {st} not found")
+                continue
+            ideq.append((st, re.findall(r"self\.([a-z_]+)\s*==\s*other\.\1", eb)))
+            idhash.append((st, re.findall(r"self\.([a-z_]+)\.hash\(state\)", hb2)))
+            cm = re.search(r"\(([^()]*)\)\s*\.cmp\(\s*&\(([^()]*)\)\s*\)", re.sub(r"\s+", "", cb2))
+            if not cm:
+                broken.append(f"Ord for {st} is no longer a tuple comparison")
+                idcmp.append((st, []))
+            else:
+                l = re.findall(r"self\.([a-z_]+)", cm.group(1))
+                r = re.findall(r"other\.([a-z_]+)", cm.group(2))
+                if l != r:
+                    broken.append(f"Ord for {st} compares different fields on the two sides")
+                idcmp.append((st, l))
+        for st in ("Atom", "BigInt", "ExternalFun", "InternalFun", "ExternalPid", "ExternalPort", "ExternalReference"):
+            f = _struct_field_names(types, st)
+            d = _derives(types, "struct", st)
+            if f is None or d is None:
+                broken.append(f"struct {st} / its derive not found in types.rs")
+                continue
+            sfields.append((st, f))
+            sderives.append((st, d))
+
+    def strs(xs):
+        return "[" + ", ".join('"' + x + '"' for x in xs) + "]"
+
+    def pairs(xs):
+        return "[" + ", ".join(f'("{a}", {b})' for a, b in xs) + "]"
+
+    def triples(xs):
+        return "[" + ",\n  ".join(f'("{a}", "{b}", "{c}")' for a, b, c in xs) + "]"
+
+    def fields(xs):
+        return "[" + ", ".join(f'("{a}", {strs(b)})' for a, b in xs) + "]"
+
+    lines.append("/-- variants of `OwnedTerm` / `BorrowedTerm` in declaration order (`discriminant` = index) -/")
+    lines.append(f"def C11_OWNED_VARIANTS : List String := {strs(ov)}")
+    lines.append(f"def C11_BORROWED_VARIANTS : List String := {strs(bv)}")
+    lines.append(f"def C11_OWNED_DERIVES : List String := {strs(od)}")
+    lines.append(f"def C11_BORROWED_DERIVES : List String := {strs(bd)}")
+    lines.append("/-- `term_type_order` / `borrowed_type_order`: variant, rank -/")
+    lines.append(f"def C11_OWNED_RANKS : List (String × Nat) := {pairs(oranks)}")
+    lines.append(f"def C11_BORROWED_RANKS : List (String × Nat) := {pairs(branks)}")
+    lines.append(f"def C11_LIST_TYPE_ORDER_OWNED : Nat := {list_order[0]}")
+    lines.append(f"def C11_LIST_TYPE_ORDER_BORROWED : Nat := {list_order[1]}")
+    lines.append("/-- arms of the same-rank match of `Ord::cmp`: left variant, right variant, what the arm evaluates (type names removed) -/")
+    lines.append(f"def C11_OWNED_ARMS : List (String × String × String) := {triples(oarms)}")
+    lines.append(f"def C11_BORROWED_ARMS : List (String × String × String) := {triples(barms)}")
+    lines.append(f'def C11_OWNED_CATCHALL : String := "{ocatch}"')
+    lines.append(f'def C11_BORROWED_CATCHALL : String := "{bcatch}"')
+    lines.append("/-- the `discriminant` fast path of `OwnedTerm::cmp` (the zero-copy type has none) -/")
+    lines.append(f"def C11_OWNED_FAST_ARMS : List (String × String × String) := {triples(ofast)}")
+    lines.append(f"def C11_BORROWED_FAST_ARMS : List (String × String × String) := {triples(bfast)}")
+    lines.append("/-- helpers that exist once per term type: is the text the same up to the type names? -/")
+    lines.append("def C11_DUPLICATED_HELPERS_SAME : List (String × Bool) := [" + ", ".join(f'("{a}", {"true" if b else "false"})' for a, b in same_text) + "]")
+    lines.append("/-- `impl Hash for OwnedTerm`: what each variant hashes after the discriminant, in order -/")
+    lines.append(f"def C11_HASH_FIELDS : List (String × List String) := {fields(hashf)}")
+    lines.append("/-- identifier structs: fields compared by `==`, hashed, ordered -/")
+    lines.append(f"def C11_ID_EQ_FIELDS : List (String × List String) := {fields(ideq)}")
+    lines.append(f"def C11_ID_HASH_FIELDS : List (String × List String) := {fields(idhash)}")
+    lines.append(f"def C11_ID_CMP_FIELDS : List (String × List String) := {fields(idcmp)}")
+    lines.append(f"def C11_STRUCT_FIELDS : List (String × List String) := {fields(sfields)}")
+    lines.append(f"def C11_STRUCT_DERIVES : List (String × List String) := {fields(sderives)}")
+    lines.append("")
+    return lines, broken
+
+
+def _struct_field_names(src, name):
+    body = _fn_body(src, r"pub\s+struct\s+" + name + r"\b[^{;]*\{")
+    if body is None:
+        return None
+    body = re.sub(r"//[^\n]*", "", body)
+    return re.findall(r"pub\s+([a-z_0-9]+)\s*:", body)
+
+
 def run(read, emit, num):
     body = "namespace Edp.Gen\n\n"
     broken = []
-    for part in (gen_c16, gen_c09, gen_c04, gen_c15, gen_c13, gen_c18, gen_c19, gen_state, gen_c20, gen_c05, gen_c08, gen_c10):
+    for part in (gen_c16, gen_c09, gen_c04, gen_c15, gen_c13, gen_c18, gen_c19, gen_state, gen_c20, gen_c05, gen_c08, gen_c10, gen_c11):
         ls, br = part(read, num)
         body += "\n".join(ls) + "\n"
         broken += br
